@@ -1059,6 +1059,41 @@ func c15Pool() []core.Scenario {
 			checkHandler(c, id, e)
 		}))
 	}
+	// Close() while workers are INSIDE running jobs, for worker batch sizes 1..4 and both job-queue policies: when the
+	// jobs return the workers find the pool (and the job channel) closed; the panic handler must stay silent
+	for batch := 1; batch <= 4; batch++ {
+		for _, closeQueue := range []bool{true, false} {
+			batch, closeQueue := batch, closeQueue
+			out = append(out, c15Scenario(fmt.Sprintf("P-close-while-jobs-running-batch%d-closeQueue%v", batch, closeQueue), "WorkerPool", func(c *core.Ctx, id string) {
+				e := mk(closeQueue, 4, 8)
+				e.p.SetWorkerBatchSize(batch).SetWorkerSizeMaximum(3).SetWorkerSizeStandBy(2)
+				gate := make(chan struct{})
+				var started, finished atomic.Int32
+				for i := 0; i < 3; i++ {
+					e.p.Schedule(func() { started.Add(1); <-gate; finished.Add(1) })
+				}
+				for t0 := time.Now(); started.Load() < 2 && time.Since(t0) < 5*time.Second; {
+					time.Sleep(200 * time.Microsecond)
+				}
+				if started.Load() < 1 {
+					c.Inconclusive("no job started within 5 s in " + id)
+					close(gate)
+					return
+				}
+				cp, where := core.Catch(e.p.Close)
+				close(gate)
+				time.Sleep(20 * time.Millisecond) // the released jobs return and their workers look at the closed pool
+				rep := map[string]any{"scenario": id, "worker_batch_size": batch, "jobs_running_at_close": started.Load()}
+				if cp != nil {
+					c.Violationf("WorkerPool.Close-while-jobs-running:panic", rep, "Close() with %d jobs in progress panics: %v at %s", started.Load(), cp, where)
+				}
+				checkHandler(c, id, e)
+				if !closeQueue {
+					core.Catch(e.q.Close)
+				}
+			}))
+		}
+	}
 	return out
 }
 
@@ -1150,7 +1185,7 @@ func c15Stress(id string, comp int, seed int64) core.Scenario {
 			q.SetLoadFromPoolDuration(50 * time.Microsecond)
 			var foreign atomic.Int32
 			p := worker.NewDefaultWorkerPool(q, nil).SetSpawnWorkerDuration(50 * time.Microsecond).SetWorkerExpiryDuration(time.Millisecond).
-				SetWorkerSizeMaximum(3).SetWorkerSizeStandBy(1).SetWorkerBatchSize(1).SetPanicHandler(func(interface{}) { foreign.Add(1) })
+				SetWorkerSizeMaximum(3).SetWorkerSizeStandBy(1).SetWorkerBatchSize(1 + int(seed%3)).SetPanicHandler(func(interface{}) { foreign.Add(1) })
 			for u := 0; u < users; u++ {
 				wg.Add(1)
 				go func() {
@@ -1239,7 +1274,7 @@ func c15PoolChurn(id string, rounds int, seed int64) core.Scenario {
 			q := fpgo.NewBufferedChannelQueue[func()](1+rng.Intn(3), rng.Intn(4), 4)
 			q.SetLoadFromPoolDuration(50 * time.Microsecond)
 			var foreign atomic.Value
-			p := worker.NewDefaultWorkerPool(q, nil).SetWorkerSizeMaximum(1 + rng.Intn(3)).SetWorkerSizeStandBy(rng.Intn(2)).SetWorkerBatchSize(1).
+			p := worker.NewDefaultWorkerPool(q, nil).SetWorkerSizeMaximum(1 + rng.Intn(3)).SetWorkerSizeStandBy(rng.Intn(2)).SetWorkerBatchSize(1 + r%3).
 				SetSpawnWorkerDuration(50 * time.Microsecond).SetWorkerExpiryDuration(time.Duration(200+rng.Intn(800)) * time.Microsecond).
 				SetIsJobQueueClosedWhenClose(r%3 != 0).
 				SetPanicHandler(func(v interface{}) {
